@@ -203,6 +203,30 @@ def c11(out):
     out.append("")
 
 
+def c20_guards():
+    """C20: the condition of each `if … { panic!("StorageT is not big enough …") }` in
+    new_from_ast_with_validity_info, pager.rs and the two state-count `assert!`s, as text with
+    whitespace removed.  Never fails: the C20 driver (Drive/C20.lean, request `2`) compares the list
+    with the shapes Model/Width.lean transcribes, so a changed guard breaks only C20's tie."""
+    items = []
+    g = src("cfgrammar/src/lib/yacc/grammar.rs")
+    for m in re.finditer(r"if\s+([^{}]*?)\s*\{\s*panic!\(\s*\"StorageT is not big enough to store ([^\"]*?)\.?\"", g):
+        items.append(("grammar:" + m.group(2).strip(), re.sub(r"\s+", "", m.group(1))))
+    pg = src("lrtable/src/lib/pager.rs")
+    for m in re.finditer(r"if\s+([^{}]*?)\s*\{\s*panic!\(\s*\"StorageT is not big enough to store ([^\"]*?)\.?\"", pg):
+        items.append(("pager:" + m.group(2).strip(), re.sub(r"\s+", "", m.group(1))))
+    for path, tag in (("lrtable/src/lib/stategraph.rs", "stategraph"), ("lrtable/src/lib/statetable.rs", "statetable")):
+        for m in re.finditer(r"assert!\(([^;]*?max_value\(\)[^;]*?)\);", src(path)):
+            items.append((tag + ":assert", re.sub(r"\s+", "", m.group(1))))
+    lx = src("lrlex/src/lib/parser.rs")
+    for m in re.finditer(r"let\s+tok_id\s*=\s*([A-Za-z0-9_:]+::try_from\([a-z_]+\))", lx):
+        items.append(("lexer:tok_id", re.sub(r"\s+", "", m.group(1))))
+    esc = lambda t: t.replace("\\", "\\\\").replace('"', '\\"')
+    body = ",\n   ".join('("%s", "%s")' % (esc(a), esc(b)) for a, b in items)
+    return ["", "/-- C20: the width guards' conditions as written in the source (whitespace removed) -/",
+            "def C20_GUARDS : List (String × String) :=\n  [" + body + "]"]
+
+
 def main():
     out = ["/-! GENERATED by tools/extract.py from /repo on every run. Do not edit. -/", "namespace GrmVerif.Extracted", ""]
     cp = src("lrpar/src/lib/cpctplus.rs")
@@ -213,6 +237,7 @@ def main():
         out.append(f"def {n} : Nat := {const(st, n, 'statetable.rs')}")
     out.append("")
     c11(out)
+    out += c20_guards()
     out += ["end GrmVerif.Extracted", ""]
     new = "\n".join(out)
     old = open(OUT).read() if os.path.exists(OUT) else None
